@@ -32,6 +32,7 @@ func main() {
 	goarch := flag.String("goarch", "", "GOARCH for loading")
 	tags := flag.String("tags", "", "build tags for loading")
 	dump := flag.String("dump", "", "debug: dump obligations of this engine")
+	cgKind := flag.String("cg", "vta", "call graph: vta (default) or cha (superset, for cross-checking)")
 	flag.Parse()
 	seed := 0
 	if s := os.Getenv("VERIF_SEED"); s != "" {
@@ -66,6 +67,10 @@ func main() {
 			}
 		}()
 		c := Load(*repo, *goarch, *tags)
+		if *cgKind == "cha" {
+			c.CG = c.CHA
+		}
+		c.CGKind = *cgKind
 		c.R = r
 		r.c = c
 		c.Tier = *tier
